@@ -19,7 +19,15 @@ G, H = 'G', 'H'
 IDS = ('a', 'b', 'c')
 CLASSES = ('NetworkNode', 'Link')
 PAIRS = (('a', 'b'), ('a', 'c'), ('b', 'c'))
-POLICIES = {'none': None, 'discard': {'P': 'discard'}, 'overwrite': {'P': 'overwrite'}, 'combine': {'P': 'combine'}}
+POLICIES = {'none': None, 'discard': {'P': 'discard'}, 'overwrite': {'P': 'overwrite'}, 'combine': {'P': 'combine'},
+            # policies a caller may write but that must not take the node's identity away or leave a half-merged node:
+            # the call may be refused (nothing changes) or carried out with the identity kept and P as it was
+            'class-combine': {'Class': 'combine'}, 'graphid-overwrite': {'GraphID': 'overwrite'},
+            'nodeid-combine': {'NodeID': 'combine'}, 'bogus': {'P': 'bogus'}}
+EITHER_POLICIES = ('class-combine', 'graphid-overwrite', 'nodeid-combine', 'bogus')
+# property bags that contradict the identity given in the arguments: refused, or added with the identity of the arguments
+CONTRARY = {'ic': lambda i: {'Class': 'Link'}, 'ii': lambda i: {'NodeID': 'b' if i == 'a' else 'a'},
+            'ig': lambda i: {'GraphID': 'g-h'}}
 
 
 def store_canon(flavour):
@@ -104,6 +112,8 @@ class LockStep(Model):
             for c in CLASSES:
                 ev.append(('add_node', i, c, 'n'))       # props: Name/Type only
                 ev.append(('add_node', i, c, 'p'))       # + P
+            for tag in CONTRARY:
+                ev.append(('add_node', i, 'NetworkNode', tag))
             ev.append(('delete_node', i))
         for a, b in PAIRS:
             if self.ref.edges.get(self.ref.edge_key(G, a, b)) is None:     # no multigraphs: offered for unlinked pairs
@@ -116,6 +126,10 @@ class LockStep(Model):
             ev.append(('upds', i, 'PQ'))
             ev.append(('upds', i, 'ClassP'))
             ev.append(('upds', i, 'PClass'))          # the refused key comes last: nothing before it may be written
+            j = 'b' if i == 'a' else 'a'
+            if self.ref.has(G, j):                    # taking the id of another node of the graph
+                ev.append(('upd', i, 'NodeID', j))
+                ev.append(('upds', i, 'PNodeID-' + j))
         ev += [('upd_all', 'Q', '1'), ('upd_all', 'Class', 'Link')]
         for kind in ('has', 'connects'):
             ev.append(('upd_link', 'a', 'b', kind, 'LP', '1'))
@@ -129,17 +143,21 @@ class LockStep(Model):
         for i in ('a', 'b'):
             if self.ref.has(G, i) and self.ref.has(H, i):
                 for pol in POLICIES:
-                    if pol == 'none' or ('P' in self.ref.nodes[(G, i)] and 'P' in self.ref.nodes[(H, i)]):
+                    # P on the kept node only: every policy keeps it; P on the merged-in node only stays unspecified
+                    if pol in ('none', 'class-combine', 'graphid-overwrite', 'nodeid-combine') or 'P' in self.ref.nodes[(G, i)]:
                         ev.append(('merge', i, pol))
         ev.append(('delete_graph',))
         return ev
 
     @staticmethod
     def _props(tag):
-        return {'n': {'Name': 'nm', 'Type': 'T1'}, 'p': {'Name': 'nm', 'Type': 'T1', 'P': '0'}}[tag]
+        return {'n': {'Name': 'nm', 'Type': 'T1'}, 'p': {'Name': 'nm', 'Type': 'T1', 'P': '0'},
+                'ic': {'Name': 'nm', 'Type': 'T1'}, 'ii': {'Name': 'nm', 'Type': 'T1'}, 'ig': {'Name': 'nm', 'Type': 'T1'}}[tag]
 
     @staticmethod
     def _multi(tag):
+        if tag.startswith('PNodeID-'):
+            return {'P': '9', 'NodeID': tag[-1]}
         return {'PQ': {'P': '2', 'Q': '1'}, 'ClassP': {'Class': 'Link', 'P': '9'}, 'PClass': {'P': '9', 'Class': 'Link'},
                 'LPLQ': {'LP': '2', 'LQ': '1'}, 'ClassLP': {'Class': 'connects', 'LP': '9'},
                 'LPClass': {'LP': '9', 'Class': 'connects'}}[tag]
@@ -147,7 +165,10 @@ class LockStep(Model):
     def _call(self, g, ev):
         k = ev[0]
         if k == 'add_node':
-            return g.add_node(node_id=ev[1], label=ev[2], props=dict(self._props(ev[3])))
+            props = dict(self._props(ev[3]))
+            if ev[3] in CONTRARY:
+                props.update(CONTRARY[ev[3]](ev[1]))
+            return g.add_node(node_id=ev[1], label=ev[2], props=props)
         if k == 'delete_node':
             return g.delete_node(node_id=ev[1])
         if k == 'add_link':
@@ -211,7 +232,13 @@ class LockStep(Model):
                 out[fl] = ('raise', 'AssertionError')
             except Exception as e:
                 out[fl] = ('raise', type(e).__name__)
-        out['model'] = self._model(ev)
+        first = out[self.flavours()[0]][0]
+        if first == 'raise' and ((ev[0] == 'merge' and ev[2] in EITHER_POLICIES) or (ev[0] == 'add_node' and ev[3] in CONTRARY)):
+            out['model'] = ('raise',)        # refusing is allowed; the state oracle then demands that nothing changed
+        elif ev[0] in ('upd', 'upds') and 'NodeID' in str(ev[2]):
+            out['model'] = ('raise',)        # only offered when the id is taken
+        else:
+            out['model'] = self._model(ev)
         if ev[0] == 'merge':
             out['disjoint_was_live'] = self.disjoint_live
             self.disjoint_live = False
@@ -303,6 +330,9 @@ class LockStep(Model):
                         if p not in d:
                             v.append((f'identity/missing-{p}/{fl}', f'[{fl}] stored node {n} lacks {p}: {d}'))
                     key = (d.get('GraphID'), d.get('NodeID'))
+                    if not all(isinstance(x, str) for x in key):
+                        v.append((f'identity/not-a-string/{fl}', f'[{fl}] stored node {n} has identity {key!r}'))
+                        continue
                     if key in seen:
                         v.append((f'identity/duplicate-node-id/{fl}', f'[{fl}] NodeID {key} stored twice (classes {seen[key]}, {d.get("Class")})'))
                     seen[key] = d.get('Class')
@@ -326,10 +356,14 @@ def _diff(want, got):
     wn, we = want
     gn, ge = got
     out = []
-    for x in set(wn) ^ set(gn):
-        out.append(('node', 'model-only' if x in wn else 'impl-only', x[0], dict((a, b[1]) for a, b in x[1])))
-    for x in set(we) ^ set(ge):
-        out.append(('edge', 'model-only' if x in we else 'impl-only', x[0], dict((a, b[1]) for a, b in x[1])))
+    try:
+        for x in set(wn) ^ set(gn):
+            out.append(('node', 'model-only' if x in wn else 'impl-only', x[0], dict((a, b[1]) for a, b in x[1])))
+        for x in set(we) ^ set(ge):
+            out.append(('edge', 'model-only' if x in we else 'impl-only', x[0], dict((a, b[1]) for a, b in x[1])))
+    except TypeError:        # an identity property turned into a list: show the two forms as they are
+        return [('model', [x for x in list(wn) + list(we) if x not in list(gn) + list(ge)][:3]),
+                ('impl', [x for x in list(gn) + list(ge) if x not in list(wn) + list(we)][:3])]
     return out[:6]
 
 
